@@ -1135,3 +1135,110 @@ func componentOf(v ssa.Value, depth int) string {
 	}
 	return ""
 }
+
+// ---------------------------------------------------------------------------------------
+// K6: expressions are written back as they were evaluated
+// ---------------------------------------------------------------------------------------
+
+func ruleK6(c *Ctx) {
+	c.doc("K6", "the text pass 1 hands on for an evaluated expression is head, then for every i the i-th operator followed by the i-th tail, separated by blanks, and numbers in base 10: the operand parser and the data emitters read exactly that text, so a dropped operator, a tail paired with another operator or another base changes the value after it was computed")
+	p := c.L.Pkg("internal/ast")
+	if p == nil {
+		c.anchorMissing("K6", "internal/ast")
+		return
+	}
+	loops := 0
+	for _, file := range p.Syntax {
+		if c.L.isGeneratedFile(file) {
+			continue
+		}
+		for _, d := range file.Decls {
+			fd, ok := d.(*ast.FuncDecl)
+			if !ok || fd.Body == nil || (fd.Name.Name != "TokenLiteral" && fd.Name.Name != "ExpToString") {
+				continue
+			}
+			ord := 0
+			ast.Inspect(fd.Body, func(x ast.Node) bool {
+				rs, ok := x.(*ast.RangeStmt)
+				if !ok {
+					return true
+				}
+				sel, ok := rs.X.(*ast.SelectorExpr)
+				if !ok || sel.Sel.Name != "Operators" {
+					return true
+				}
+				ki, ok1 := rs.Key.(*ast.Ident)
+				vi, ok2 := rs.Value.(*ast.Ident)
+				if !ok1 || !ok2 {
+					c.fail("K6", fmt.Sprintf("%s|operator loop#%d", fdName(fd), ord+1), c.L.Pos(rs.Pos()), "undecided: the loop over the operators does not bind index and operator")
+					return true
+				}
+				loops++
+				ord++
+				owner := types.ExprString(sel.X)
+				key := fmt.Sprintf("%s|operator loop#%d over %s.Operators", fdName(fd), ord, owner)
+				// sequence of writes in the body
+				var seq []string
+				tailVar := map[string]string{}
+				for _, st := range rs.Body.List {
+					switch s := st.(type) {
+					case *ast.AssignStmt:
+						if len(s.Lhs) == 1 && len(s.Rhs) == 1 {
+							if id, ok := s.Lhs[0].(*ast.Ident); ok {
+								tailVar[id.Name] = types.ExprString(s.Rhs[0])
+							}
+						}
+					case *ast.ExprStmt:
+						call, ok := s.X.(*ast.CallExpr)
+						if !ok || len(call.Args) != 1 {
+							seq = append(seq, "?")
+							continue
+						}
+						fsel, ok := call.Fun.(*ast.SelectorExpr)
+						if !ok {
+							seq = append(seq, "?")
+							continue
+						}
+						arg := types.ExprString(call.Args[0])
+						if v, ok := tailVar[arg]; ok {
+							arg = v
+						}
+						switch fsel.Sel.Name {
+						case "WriteByte", "WriteRune":
+							seq = append(seq, "sep:"+arg)
+						case "WriteString":
+							seq = append(seq, "str:"+arg)
+						default:
+							seq = append(seq, "?")
+						}
+					default:
+						seq = append(seq, "?")
+					}
+				}
+				tailA := fmt.Sprintf("ExpToString(%s.TailExps[%s])", owner, ki.Name)
+				tailB := fmt.Sprintf("%s.TailExps[%s].TokenLiteral()", owner, ki.Name)
+				good := len(seq) == 4 && seq[0] == "sep:' '" && seq[1] == "str:"+vi.Name && seq[2] == "sep:' '" && (seq[3] == "str:"+tailA || seq[3] == "str:"+tailB)
+				c.check(good, "K6", key, c.L.Pos(rs.Pos()), fmt.Sprintf("each round must write ' ', the operator, ' ', the tail of the same index; writes: %v", seq))
+				return true
+			})
+		}
+	}
+	c.check(loops >= 4, "K6", "serialiser loops found", "", fmt.Sprintf("%d", loops))
+	// numbers in base 10
+	if fd, fp := c.L.FuncDecl("internal/ast", "ExpToString"); fd != nil {
+		n := 0
+		ast.Inspect(fd.Body, func(x ast.Node) bool {
+			call, ok := x.(*ast.CallExpr)
+			if !ok {
+				return true
+			}
+			if fn, ok := calleeOf(fp.TypesInfo, call).(*types.Func); ok && fn.Pkg() != nil && fn.Pkg().Path() == "strconv" && strings.HasPrefix(fn.Name(), "Format") && len(call.Args) == 2 {
+				n++
+				b, isK := constInt(fp.TypesInfo, call.Args[1])
+				c.check(isK && b == 10, "K6", fmt.Sprintf("ExpToString|number base#%d", n), c.L.Pos(call.Pos()), "numbers must be written in base 10 (the emitters parse them with Atoi)")
+			}
+			return true
+		})
+		c.check(n >= 1, "K6", "ExpToString|number formatting found", c.L.Pos(fd.Pos()), fmt.Sprintf("%d", n))
+	}
+}
